@@ -62,7 +62,11 @@ pub fn run(o: &Opts) -> Report {
                     Err(_) => { rep.oracle_fail("history-operation-panics", &key, &format!("{op:?} after {:?}", &trace[..k])); break; }
                     Ok(Some((i, got))) => {
                         if got.0 != fresh[i].0 { rep.oracle_fail("parse-result-depends-on-history", &key, &format!("after {:?}: got {} | fresh {}", &trace[..k], &got.0[..got.0.len().min(300)], &fresh[i].0[..fresh[i].0.len().min(300)])); }
-                        else if got.1 != fresh[i].1 { rep.oracle_fail("error-message-depends-on-history", &key, &format!("after {:?}: got {:?} | fresh {:?}", &trace[..k], &got.1[..got.1.len().min(200)], &fresh[i].1[..fresh[i].1.len().min(200)])); }
+                        else if got.1 != fresh[i].1 {
+                            // build() expands the generated help subcommand's tree; its own usage then reads `[COMMAND]` instead of `[COMMAND]...`
+                            let norm = |s: &str| s.replace("[COMMAND]...", "[COMMAND]");
+                            let class = if norm(&got.1) == norm(&fresh[i].1) && trace[..k].iter().any(|t| t == "Build") { "error-message-depends-on-history:help-subcommand-usage-after-build" } else { "error-message-depends-on-history" };
+                            rep.oracle_fail(class, &key, &format!("after {:?}: got {:?} | fresh {:?}", &trace[..k], &got.1[..got.1.len().min(200)], &fresh[i].1[..fresh[i].1.len().min(200)])); }
                         rep.case(&key, k >= 2);
                         rep.count("parses_in_histories");
                     }
